@@ -5,6 +5,60 @@ HERE = os.path.dirname(os.path.dirname(os.path.abspath(__file__)))
 
 # id -> (level text, level note, technique, design_ref)
 CHECKS = {
+ 'C03': ("Lean 4 proof over a typed RTLIR expression/statement language, a model `tr` of VBehavioralTranslatorL1-L3 written clause by clause, and a hand-written two-state IEEE-1800 "
+         "semantics of the emitted SystemVerilog subset (context-width sizing of 11.6/11.8): for every well-typed (hypothesis WT = the type checker's invariant) expression, reference, "
+         "right-hand side and statement, evaluating the translated SV gives the PyMTL value / store (expr_correct, ref_correct, rhs_correct, stmt_correct, stmt_sim, for_unrolls), for "
+         "both readings of the size cast; non-blocking assignment is last-wins and commits in order; the single-driver checker is sound and complete; a single-driver acyclic design has "
+         "a unique fixed point independent of block order (reusing the C01 theory). Tie to the code: generated hierarchical components are translated by the real VerilogTranslationPass, "
+         "the text is parsed by an independent IEEE-precedence parser, executed by the Lean semantics and compared cycle by cycle with the PyMTL simulation on every output; per update "
+         "block the parsed real text is compared with tr(real typed RTLIR) on sampled stores.",
+         "PARTIAL: the SV semantics is a formalisation that cannot be cross-validated here (no Verilog simulator in the sandbox) and is part of the trusted base; 'syntactically valid' "
+         "means accepted by harness/checks/c03_svparse.py; the structural translator is covered by executing the parsed text, not by a theorem; WT is a hypothesis (C10 relates it to the "
+         "checker). Known finding C03-F17 (negative-step loops wrap in unsigned arithmetic).",
+         "Lean 4 proof (translation correctness under context-width semantics) + translation validation by parsing and executing the real emitted text", "DESIGN.md §5 C03"),
+ 'C12': ("Lean 4 proof: the flat port map of the Yosys backend is exact — each flattened leaf is the slice [msb:lsb] of the packed value of the original port (flat_is_slice), the leaf "
+         "ranges are pairwise disjoint and cover [0,width) (flat_partition), mangled leaf/port names are injective (flat_names_injective, port_names_injective) — and the expression and "
+         "statement translation theorems of C03 hold for the plain-Verilog forms (expr_correct_yosys, stmt_correct_yosys) with the same single-driver and unique-fixed-point results. Tie "
+         "to the code: YosysTranslationPass output parsed and executed by the Lean semantics vs the PyMTL simulation cycle by cycle, single-driver check on the parsed text, and the port "
+         "map checked by driving/observing every flattened leaf against the predicted slice of to_bits().",
+         "PARTIAL as C03 (SV/Verilog semantics and parser trusted; structural translator only executed). Known finding C12-F10: a struct signal in output direction has several "
+         "unsynchronised forms (multi-driver / undriven / output mismatch), reported from labelled streams under one signature.",
+         "Lean 4 proof (flat port map = slices of the packed value; translation correctness) + translation validation of the real emitted text", "DESIGN.md §5 C12"),
+ 'C08': ("Lean 4 proof over a model of _floodfill_nets and _resolve_value_connections: nets are exactly the undirected connected components with at least two members, each once "
+         "(component_sound_complete with fuel sufficiency proved, nets_are_classes, nets_each_once); nets and writers are literally invariant under permutation and side-flips of the "
+         "connect statements (perm_invariant, flip_invariant); the propagation rounds are confluent for every visiting order of nets and marks (propagation_confluent); the writer of a "
+         "net is its unique member driven from outside (block, top-level input, constant, or bit-sharing relative of a reader of another net), characterised by an order-free least "
+         "fixed point (writer_unique, marks_are_spec, two_writers_iff, src_iff_bits). pymtl3 is tied to the model by differential elaboration of generated hierarchical designs under "
+         "several statement orders (get_all_value_nets, get_signal_adjacency_dict) with simulation of the net values and an independent union-find / bit-level oracle.",
+         "The simulation clause ('every member carries the writer's value') and the identity of pymtl3's loop with the modelled loop are by correspondence only. Known finding "
+         "C08-self-overlap-net (a net whose reader overlaps its own writer is simulated one evaluation late).",
+         "Lean 4 proof (components = reachability classes, order invariance, confluence of writer propagation) + differential correspondence over statement orders", "DESIGN.md §5 C08"),
+ 'C09': ("Lean 4 proof over a staged model of elaborate(): it rejects iff a structural defect holds — wrong operator; a cycle in the merged connection graph, with the pred-based flood "
+         "fill proved to detect exactly that for every iteration order (floodfill_cycle_any_order); a signal bit with two block drivers (upblk_writes_iff via related_iff_overlap); a net "
+         "with two or no outside-driven members (multi_writer_iff, no_writer_iff); an illegal port use — and reports the class of the first such stage (verdict_iff, verdict_class, "
+         "legal_accepted); the outcome is invariant under order and orientation of the connect statements. Tied to the code by legal designs, 28 single-defect kinds at random hierarchy "
+         "positions, multi-defect designs and exhaustive small tables, each under several statement orders, comparing the exception class (and [Type k] tag) with model and oracle.",
+         "The decision tables (operators, SignalTypeError Types 1-9, loop-back) are modelled from the code, not derived; block-order independence is by correspondence; duplicate "
+         "connections are merged by the code (quirk, proved as dup_is_no_loop); `+=` in an update block raises TypeError (outside the property's operator set).",
+         "Lean 4 proof (hierarchical checks <=> bit-level defect predicate; cycle detection for every iteration order) + single-defect injection correspondence", "DESIGN.md §5 C09"),
+ 'C13': ("Lean 4 proof: the module-table checker is exact (wfModules_sound/complete: defined once, closed, legal and unique identifiers); the component table of translate_component holds, "
+         "for every name, the body of the first instance of the post-order walk, so it aliases iff names are not injective on bodies (no_alias_iff_names_injective), and the repaired walk "
+         "(translateChecked, now in /repo) succeeds exactly when no instance is aliased; full and unique names are injective in the parameter values for a fixed class (separator-free "
+         "images, collision-free hash) and the repaired name function always emits an identifier; orders of modules, ports and blocks are invariant under enumeration order. Tied to pymtl3 "
+         "by differential execution on names and on design x backend cases (stdlib, examples, generated hierarchies, probe streams) including which body each emitted module holds. "
+         "PARTIAL: byte-level determinism across PYTHONHASHSEEDs and repeated translations is established by correspondence only (3 seeds quick, 12 thorough, 8-26 translations per case).",
+         "Hash-seed/process determinism has no Lean counterpart (CPython set/dict iteration). The model keeps blake2b uninterpreted and module bodies opaque; the scanner is line-oriented "
+         "and trusted; cross-class name injectivity and connection order are not covered. Known finding C13-param-repr-address.",
+         "Lean 4 proof (verified module-table checker, aliasing characterisation, name injectivity) + byte-level determinism by differential execution (partial)", "DESIGN.md §5 C13"),
+ 'C15': ("Lean 4 proofs over a by-name executable model of whole-design metadata: replacing a subtree by delete-then-add yields exactly the entry set of elaborating the hierarchy with "
+         "the new subtree in place (replace_eq_build), for any sequence of replacements by induction (sequence), with nothing contributed by the old subtree remaining unless the new one "
+         "contributes it (nothing_left, delete_clean), and the path-indexed hierarchy shown to be a flattened inductive tree. Tied to pymtl3 by differential execution on random hierarchies "
+         "(replace_component / replace_component_with_obj, 1-4 steps, every queryable container compared by name with a from-scratch build and with the model, simulation traces of all "
+         "signals, reachability scan for removed objects).",
+         "Equality is set-equality of entries (decidable), not of sorted lists; nets are derived and compared only; simulation is tested, not modelled; hypotheses: compatible replacement, "
+         "no parent-level loopback on the replaced child. Four defects repaired in /repo; four known findings (ancestor block references, parent value / method constraints on the "
+         "replaced child, loop-back connection) reproduced from directed cases on every run.",
+         "Lean 4 proof (replace = rebuild on a by-name metadata model, by induction over replacement sequences) + differential correspondence", "DESIGN.md §5 C15"),
  'C20': ("Lean 4 proves, for an ISA interpreter written from tinyrv0-isa.md, that decode after encode is the identity on all ten instructions with in-range fields, that encode is "
          "injective and decode accepts exactly the table (decode_iff), that immediates are sign-extended, x0 stays 0, shifts use the low five bits, PC' = PC + 4 except a taken bne, "
          "lw after sw returns the stored word in little-endian memory, and that the checksum FL/CL/RTL algorithms equal the specification for every input of every length. PARTIAL: "
